@@ -1,3 +1,4 @@
+from indi.message import checks, const
 from indi.message.base import IndiMessage
 
 
@@ -8,4 +9,4 @@ class OneLight(IndiMessage):
     def __init__(self, name: str, value, **junk):
         super().__init__()
         self.name = name
-        self.value = value
+        self.value = checks.dictionary(value, const.State)
